@@ -15,7 +15,7 @@ def _miss(v):
 DATA_CARRIERS = ["f64", "list_none", "list_nan", "tuple_nan", "f32", "int", "uint", "int16", "masked_nan", "masked_junk", "masked_mixed", "masked_int", "masked_fill", "series",
                  "series_shifted", "dask", "object"]
 TIME_CARRIERS = ["dt64ns", "dt64us", "dt64ms", "dt64s", "dt64m", "dt64h", "dt64D", "list_datetime", "list_timestamp", "dtindex", "series",
-                 "dtindex_utc", "series_utc", "epoch_list", "epoch_int", "epoch_float", "epoch_int32"]
+                 "dtindex_utc", "series_utc", "epoch_list", "epoch_int", "epoch_float", "epoch_int32", "epoch_series", "epoch_index"]
 SPAN_CARRIERS = ["list", "tuple"]
 
 
@@ -147,6 +147,10 @@ def time(ts, kind="dt64ns"):
     if kind == "epoch_int32":
         # 32-bit epoch seconds (the usual storage type of netCDF time variables)
         return np.array(ts, dtype="int64").astype("int32" if max(ts) < 2 ** 31 else "uint32")
+    if kind in ("epoch_series", "epoch_index"):
+        # numbers of seconds since the epoch in a pandas object (a "time" column of integers / floats)
+        vals = [float(t) for t in ts] if fractional(ts) else [int(t) for t in ts]
+        return pd.Series(vals) if kind == "epoch_series" else pd.Index(vals)
     if kind == "epoch_float":
         return np.array(ts, dtype="float64")
     raise ValueError(kind)
